@@ -3,6 +3,7 @@ package main
 import (
 	"fmt"
 	"go/token"
+	"go/types"
 )
 
 // prims are the harness primitives (Appendix A of DESIGN.md), intercepted by name in package astisub.
@@ -31,6 +32,7 @@ func init() {
 		"vfreeze":      primFreeze,
 		"veqstr":       func(e *Exec, a []Value) Value { return e.strEq(a[0].(Str), a[1].(Str)) },
 		"vsymstr":      primSymStr,
+		"vscannerSplit": primScannerSplit,
 	}
 }
 
@@ -280,4 +282,17 @@ func primFreeze(e *Exec, a []Value) Value {
 	}
 	e.checkFrz = true
 	return nil
+}
+
+// vscannerSplit(sc): the unexported field "split" of a *bufio.Scanner.
+func primScannerSplit(e *Exec, a []Value) Value {
+	p := e.derefPtr(a[0])
+	st := (*p).(Struct)
+	named := e.P.ByPath["bufio"].Type("Scanner").Type().Underlying().(*types.Struct)
+	for i := 0; i < named.NumFields(); i++ {
+		if named.Field(i).Name() == "split" {
+			return st[i]
+		}
+	}
+	panic("vscannerSplit: field not found")
 }
